@@ -10,8 +10,8 @@ LEVEL_SYS = ('TLC checks the formalised property exhaustively on the RedoSys spe
              'sampled (quick) or enumerated (thorough) is replayed on the real binaries built from /repo and '
              'the observable state after every command is compared with the specification state.')
 NOTE_SYS = ('trusted: TLC, the hand-written specification (bound to the code by the replays), the kernel/SQLite; '
-            'bounded histories and small programs; directories as targets, symbolic-link sources and alternative spellings '
-            'are modelled, links produced by scripts and directories as dependencies are not')
+            'bounded histories and small programs; directories as targets, symbolic-link sources, alternative spellings and '
+            'two commands in flight (pair programs) are modelled, links produced by scripts and directories as dependencies are not')
 
 CHECKS = {
     'C01': dict(technique='TLA+ model checking (TLC) of RedoSys invariant Fresh + replay of TLC-generated histories on the real redo',
